@@ -14,7 +14,10 @@
      oid   oidFromDER          n = characters, v1 = sum of codes, v2 = xor of i * code[i]
      hex   hexIsValid + hexTo  n = octets, v1 = sum, v2 = xor of i * octet[i]
      dec   decIsValid + CLZ, ToU32, Luhn and Damm digits
-     b64   b64IsValid + b64To on 4-symbol strings: a, b over 8 representatives, c, d over 1..255
+     b64   b64IsValid + b64To on 4-symbol strings <<a, b, c, d>>: a over 8 representatives (letter,
+           letter with low bits, '/', '=', control, '-', 0x80, 0xFF), b over 1..255, (c, d) over
+           representatives x representatives and over all c with d = '=' (the positions whose
+           low bits matter get the full range)
    IOEnv.GEN_MOD / GEN_REM select a slice of the second symbols, IOEnv.GEN_R1..R3 (or -1)
    restrict the first octet to the given tag numbers (a % 32) - quick tier.                     *)
 EXTENDS Codecs, TLC, IOUtils
@@ -45,6 +48,8 @@ Eval(s) ==
     [] Fn = "dec" -> IF DecIsValid(s) THEN <<TRUE, DecCLZ(s), DecToU32(s)[1], (DecLuhnCalc(s) * 256) + DecDammCalc(s)>> ELSE None
     [] Fn = "b64" -> IF B64IsValid(s) THEN LET o == B64To(s) IN <<TRUE, Len(o), SumOf(o), XorW(o)>> ELSE None
 
+B64RepSet == {B64Rep[i] : i \in 1..8}
+B64CD == SetToSeq((B64RepSet \X B64RepSet) \cup {<<c, 61>> : c \in 1..255})
 Z7 == <<0, 0, 0, 0, 0, 0, 0>>
 Step(acc, s, w) ==
   LET r == Eval(s) IN
@@ -53,14 +58,14 @@ Step(acc, s, w) ==
 
 Agg(a, b) ==
   IF Fn = "b64"
-  THEN FoldLeft(LAMBDA acc, c : FoldLeft(LAMBDA acc2, d : Step(acc2, <<a, b, c, d>>, c + d), acc, Syms), Z7, Syms)
+  THEN FoldLeft(LAMBDA acc, cd : Step(acc, <<a, b, cd[1], cd[2]>>, cd[1] + cd[2]), Z7, B64CD)
   ELSE LET x3 == FoldLeft(LAMBDA acc, c : Step(acc, <<a, b, c>>, c + 1), Z7, Syms)
            x2 == Step(x3, <<a, b>>, 0)
            x1 == IF b = Lo THEN Step(x2, <<a>>, 0) ELSE x2
        IN IF a = Lo /\ b = Lo THEN Step(x1, <<>>, 0) ELSE x1
 
-BSet == IF Fn = "b64" THEN {B64Rep[i] : i \in 1..8} ELSE Lo..255
-ASet == {x \in BSet : R1 = -1 \/ (x % 32) \in {R1, R2, R3}}
+BSet == Lo..255
+ASet == IF Fn = "b64" THEN B64RepSet ELSE {x \in BSet : R1 = -1 \/ (x % 32) \in {R1, R2, R3}}
 InSlice(a, b) == SliceMod = 1 \/ (((a * 256) + b) * 7 + (a \div 16)) % SliceMod = SliceRem
 
 VARIABLES a, b, ph
